@@ -564,6 +564,38 @@ def glass(ctx):
             res.fail(ctx.finding('GLASS', m, m.node,
                                  f'glass resolution: {name} violated',
                                  construct='glass ' + name))
+    # every value stored as the surface material is built from this line's
+    # own tokens (no memo keyed by name: model glasses share one name), and no
+    # path leaves before the fallback chain has run
+    from ..match import match, parse
+    if 'material = data[1]' not in s:
+        res.fail(ctx.finding('GLASS', m, m.node, 'glass name is not token 1',
+                             construct='glass name token'))
+    # 'material' alone: the placeholder name, replaced below unless no
+    # catalogue knows it (then the isinstance test sends it to the model glass)
+    allowed = [parse(x) for x in ('material', 'Material(material)',
+                                  'Material(material, manufacturer.lower())',
+                                  'AbbeMaterial(n, v)')]
+    nst = 0
+    for st in ast.walk(m.node):
+        if isinstance(st, (ast.Assign, ast.AugAssign)):
+            tg = st.targets[0] if isinstance(st, ast.Assign) else st.target
+            if unparse(tg) == "self._current_surf_data['material']":
+                nst += 1
+                if not any(match(a, st.value, {}) is not None for a in allowed):
+                    res.fail(ctx.finding(
+                        'GLASS', m, st,
+                        f'surface material taken from {unparse(st.value)}: not '
+                        f'built from the name, index and Abbe number of this '
+                        f'GLAS line', construct='glass material source'))
+        if isinstance(st, ast.Return):
+            res.fail(ctx.finding('GLASS', m, st,
+                                 'a path leaves _read_glass before the '
+                                 'catalogue / model-glass chain',
+                                 construct='glass early return'))
+    if nst < 4:
+        raise AnalysisError('_read_glass: material stores not found')
+    res.ok(f'{nst} material stores, each built from this line\'s tokens')
     ab = P.func('AbbeMaterial.__init__')
     if ab.params[:2] == ['n', 'abbe']:
         res.ok('AbbeMaterial(n, abbe) parameter order')
